@@ -1,4 +1,5 @@
 import A2Verif.Lemmas.FsDosInit
+import A2Verif.Lemmas.FsDosDelete
 import A2Verif.Props.C01
 import A2Verif.Props.C03
 import A2Verif.Props.C04
@@ -178,6 +179,41 @@ theorem dos_rename_refines {d : Disk} {sb : List Nat} (h : DInv d sb) (old new :
     exact refused_same h _
 
 
+/-- transfer of a working-state refinement that changes the layout (delete, put) to the disk object -/
+theorem lift_refines' {d : Disk} {sb : List Nat} {v : Bytes} {L : Lay} (hv : d.vtoc = some v)
+    (hi : WInv { c := d.c, raw := d.raw, v := v } sb L) {α : Type} {m : M α} {op : FsOp}
+    (h : ∃ res w' L', m { c := d.c, raw := d.raw, v := v } = (res, w') ∧ WInv w' sb L' ∧ w'.c = d.c ∧
+      stepOk dosParams (volOf (W.mk d.c d.raw v).img d.c sb L) op (isOk res) (volOf w'.img d.c sb L') = true) :
+    DInv (d.run m).2 sb ∧ ∃ pre post, reading d sb = .ok pre ∧ reading (d.run m).2 sb = .ok post ∧
+      stepOk dosParams pre op (isOk (d.run m).1) post = true := by
+  obtain ⟨res, w', L', hm, hi', hc', hs⟩ := h
+  rw [run_eq hv, hm]
+  refine ⟨dinv_toDisk hi', volOf (W.mk d.c d.raw v).img d.c sb L, volOf w'.img d.c sb L', ?_, ?_, ?_⟩
+  · have := reading_toDisk hi; rw [toDisk_eq hv] at this; exact this
+  · have := reading_toDisk hi'; rw [hc'] at this; exact this
+  · exact hs
+
+/-- `delete` of the concrete model refines the specification: an accepted delete frees exactly the sectors the
+file's record owned (data and T/S lists) and removes exactly that record; a refusal (missing file, locked file,
+over-long name) leaves the disk as it was. -/
+theorem dos_delete_refines {d : Disk} {sb : List Nat} (h : DInv d sb) (name : Bytes) :
+    DInv (delete d name).2 sb ∧ ∃ pre post, reading d sb = .ok pre ∧ reading (delete d name).2 sb = .ok post ∧
+      stepOk dosParams pre (.delete (pathOf name)) (isOk (delete d name).1) post = true := by
+  unfold delete
+  obtain ⟨v, L, hvt, hi⟩ := h
+  cases hfn : stringToFileName name with
+  | error e =>
+    have hm : deleteM name { c := d.c, raw := d.raw, v := v } = (.error e, { c := d.c, raw := d.raw, v := v }) := by
+      unfold deleteM
+      simp only [M.bind_apply, M.getV_apply, M.lift_apply, hfn]
+    rw [run_eq hvt, hm]
+    simp only [toDisk_eq hvt]
+    exact refused_same ⟨v, L, hvt, hi⟩ _
+  | ok fname =>
+    have hp : pathOf name = pathOfName fname := by unfold pathOf; rw [hfn]
+    rw [hp]
+    exact lift_refines' hvt hi (deleteM_refines (P := dosParams) hi hfn)
+
 /-! ## `init` -/
 
 /-- `init33(254,false)` / `init32(254,false)` on a blank 35-track image succeed and establish the invariant,
@@ -237,9 +273,14 @@ theorem reading_volD {d : Disk} {sb : List Nat} (h : DInv d sb) : reading d sb =
 def StepRefines (op : Op) : Prop := ∀ (d : Disk) (sb : List Nat), DInv d sb →
   DInv (op.run d).2 sb ∧ stepOk dosParams (volD d sb) op.abs (op.run d).1 (volD (op.run d).2 sb) = true
 
-/-- operations that rewrite one catalog entry -/
+/-- operations that rewrite one catalog entry without touching the bitmap -/
 def Op.isMeta : Op → Bool
   | .put _ | .delete _ => false
+  | _ => true
+
+/-- every operation except `put` -/
+def Op.notPut : Op → Bool
+  | .put _ => false
   | _ => true
 
 theorem of_readings {d d' : Disk} {sb : List Nat} {op : FsOp} {ok : Bool}
@@ -255,6 +296,17 @@ theorem meta_step_refines (op : Op) (hm : op.isMeta = true) : StepRefines op := 
   cases op with
   | put f => cases hm
   | delete name => cases hm
+  | rename old new => exact of_readings (dos_rename_refines h old new)
+  | lock name => exact of_readings (dos_lock_refines h name)
+  | unlock name => exact of_readings (dos_unlock_refines h name)
+  | retype name ty => exact of_readings (dos_retype_refines h name ty)
+
+/-- **Refinement, one step**, for every operation except `put` -/
+theorem notPut_step_refines (op : Op) (hm : op.notPut = true) : StepRefines op := by
+  intro d sb h
+  cases op with
+  | put f => cases hm
+  | delete name => exact of_readings (dos_delete_refines h name)
   | rename old new => exact of_readings (dos_rename_refines h old new)
   | lock name => exact of_readings (dos_lock_refines h name)
   | unlock name => exact of_readings (dos_unlock_refines h name)
